@@ -77,6 +77,7 @@ type c07Scn struct {
 	fSend    bool    // SendMessage may fail / report DatagramTooLarge (choice point)
 	quick    explore.Bounds
 	thorough explore.Bounds
+	twin     explore.Bounds // thorough tier: second exploration of the same body under delay bounding (P == 0: none)
 	thOnly   bool // thorough tier only (more than 4 environment events)
 }
 
@@ -920,8 +921,15 @@ func c07Sig(o *vsched.Outcome) string {
 
 func c07Scenarios() []*c07Scn {
 	s := c07Sec
+	// q / t: classic preemption bounding (the successor of a blocked thread is a free choice).
+	// Scenarios with three or more simultaneously runnable threads explode under it, they use
+	// qd (delay bounding: every non-default scheduling decision costs 1) in the quick tier and, in
+	// the thorough tier, t2 plus a delay-bounded twin "<name>~delay" with a deeper budget (td).
 	q := explore.Bounds{P: 2, E: 1, FreeSwitch: true}
+	qd := explore.Bounds{P: 2, E: 1}
 	t := explore.Bounds{P: 3, E: 2, FreeSwitch: true}
+	t2 := explore.Bounds{P: 2, E: 2, FreeSwitch: true}
+	td := explore.Bounds{P: 4, E: 2}
 	return []*c07Scn{
 		// reply direction keeps the session alive across the sweep at 3 s; it expires at 4 s
 		{name: "reply-keeps-alive", quick: q, thorough: t,
@@ -937,7 +945,7 @@ func c07Scenarios() []*c07Scn {
 			envs:   [][]c07Step{{c07Dg(1, "x:1"), c07Sl(c07Timeout - c07Eps), c07Dg(1, "x:1")}},
 			checks: []int64{3*s + c07Eps, 5 * s}},
 		// two sessions sharing one destination, replies on both sockets; faults on the send path
-		{name: "two-sessions-one-destination", quick: q, thorough: t,
+		{name: "two-sessions-one-destination", quick: qd, thorough: t2, twin: td,
 			envs:   [][]c07Step{{c07Dg(1, "x:1"), c07Dg(2, "x:1"), c07Rp(1)}},
 			checks: []int64{s / 2}},
 		// fragmented datagram (session 1) and a lone first fragment (session 2: never dials, expires silently)
@@ -945,7 +953,7 @@ func c07Scenarios() []*c07Scn {
 			envs:   [][]c07Step{{c07F1(1), c07F1(2), c07F2(1), c07Rp(1)}},
 			checks: []int64{3*s + c07Eps, 7 * s / 2}},
 		// a datagram of the same id arrives exactly when the sweep closes the session's socket
-		{name: "datagram-races-sweep-close", quick: q, thorough: t,
+		{name: "datagram-races-sweep-close", quick: qd, thorough: t2, twin: td,
 			envs:   [][]c07Step{{c07Dg(1, "x:1")}, {c07Wc(1), c07Dg(1, "x:1")}},
 			checks: []int64{7 * s / 2}},
 		// the second fragment arrives exactly when the never-dialled session is being expired
@@ -957,7 +965,7 @@ func c07Scenarios() []*c07Scn {
 			envs:   [][]c07Step{{c07Dg(1, "x:1"), c07Re(1), c07Dg(1, "x:1"), c07Rp(1)}},
 			checks: []int64{s / 2}},
 		// dial / write / send faults on a two-datagram session with a reply
-		{name: "faults", quick: q, thorough: t, fDial: true, fWrite: true, fSend: true,
+		{name: "faults", quick: q, thorough: t2, twin: td, fDial: true, fWrite: true, fSend: true,
 			envs:   [][]c07Step{{c07Dg(1, "x:1"), c07Dg(1, "y:2"), c07Rp(1)}},
 			checks: []int64{s / 2}},
 		// Hook rewrites the address: writes go to the rewritten address, replies carry the original one
@@ -970,16 +978,16 @@ func c07Scenarios() []*c07Scn {
 			checks: []int64{3 * s}},
 
 		// ---- thorough only: up to 6 environment events
-		{name: "T-expire-reuse-reply-expire", thorough: t, thOnly: true,
+		{name: "T-expire-reuse-reply-expire", thorough: t2, twin: td, thOnly: true,
 			envs:   [][]c07Step{{c07Dg(1, "x:1"), c07Sl(c07Timeout + c07Eps), c07Sl(c07Timeout - c07Eps), c07Dg(1, "x:1"), c07Rp(1), c07Dg(2, "x:1")}},
 			checks: []int64{3*s + c07Eps, 6 * s}},
-		{name: "T-two-sessions-staggered-expiry", thorough: t, thOnly: true,
+		{name: "T-two-sessions-staggered-expiry", thorough: t2, twin: td, thOnly: true,
 			envs:   [][]c07Step{{c07Dg(1, "x:1"), c07Sl(s / 2), c07Dg(2, "y:2"), c07Sl(c07Timeout - c07Eps), c07Rp(2), c07Dg(1, "x:1")}},
 			checks: []int64{3*s + c07Eps, 11*s/2 + c07Eps, 6 * s}},
-		{name: "T-races-with-faults", thorough: t, thOnly: true, fDial: true, fSend: true,
+		{name: "T-races-with-faults", thorough: t2, twin: td, thOnly: true, fDial: true,
 			envs:   [][]c07Step{{c07Dg(1, "x:1"), c07Rp(1), c07F1(2)}, {c07Wc(1), c07Dg(1, "x:1"), c07F2(2)}},
 			checks: []int64{7 * s / 2}},
-		{name: "T-fragment-reuse-loss", thorough: t, thOnly: true, racyLoss: true, fWrite: true,
+		{name: "T-fragment-reuse-loss", thorough: t2, twin: td, thOnly: true, racyLoss: true, fWrite: true,
 			envs:   [][]c07Step{{c07F1(1), c07F2(1), c07Rp(1), c07Re(1), c07F1(1), c07F2(1)}},
 			checks: []int64{s}},
 	}
@@ -994,6 +1002,9 @@ func TestVerifC07UDPSessions(t *testing.T) {
 		}
 		sc := sc
 		scs = append(scs, &explore.Scenario{Name: sc.name, Quick: sc.quick, Thorough: sc.thorough, Body: sc.body, Sig: c07Sig})
+		if sc.twin.P > 0 && (env.Thorough() || env.Replay != "") {
+			scs = append(scs, &explore.Scenario{Name: sc.name + "~delay", Quick: sc.twin, Thorough: sc.twin, Body: sc.body, Sig: c07Sig})
+		}
 	}
 	if os.Getenv("VERIF_C07_COV") != "" {
 		defer func() {
